@@ -214,7 +214,10 @@ def bootstrap_runs(chk: Check, n, kinds):
             skind = "mean"
         if zeros:
             skind = "quantile"
+        batch = None if i % 3 else rng.choice([1, 7, 33])          # a user-supplied batch size is a setting too
         common_kw = dict(alternative=alt, confidence_level=cl, n_resamples=nres, method=method, random_state=seed)
+        if batch is not None:
+            common_kw["batch"] = batch
         if skind == "mean":
             columns, stat = "x", np.mean
             metric = tt.Bootstrap("x", np.mean, **common_kw)
@@ -247,14 +250,14 @@ def bootstrap_runs(chk: Check, n, kinds):
 
         with warnings.catch_warnings():
             warnings.simplefilter("ignore")
-            oracle = scipy.stats.bootstrap((contr, treat), stacked, n_resamples=nres, batch=None, axis=0,
+            oracle = scipy.stats.bootstrap((contr, treat), stacked, n_resamples=nres, batch=batch, axis=0,
                                            confidence_level=cl, alternative=alt, method=method, random_state=seed)
         st = stacked(contr, treat, axis=0)
         expect = [stat(contr, axis=0), stat(treat, axis=0), st[0], oracle.confidence_interval.low[0],
                   oracle.confidence_interval.high[0], st[1], oracle.confidence_interval.low[1],
                   oracle.confidence_interval.high[1]]
         inp = dict(statistic=skind, columns=columns, alternative=alt, confidence_level=cl, method=method,
-                   n_resamples=nres, seed=seed, ids=repr(ids), sizes=sizes, case=i, check_seed=chk.seed)
+                   n_resamples=nres, batch=batch, seed=seed, ids=repr(ids), sizes=sizes, case=i, check_seed=chk.seed)
         for kind, data in backends.make_inputs(cols, kinds).items():
             chk.case(("bootstrap", kind, skind, alt, method, nres))
             chk.branch("bootstrap:" + skind)
@@ -326,6 +329,34 @@ def bootstrap_runs(chk: Check, n, kinds):
                     break
 
 
+def same_columns_two_orders(chk: Check):
+    """an Experiment made of two multi-column Bootstrap metrics over the SAME columns declared in opposite orders: the
+    shared row-level read then holds exactly those columns, in one order — each metric must still get its own"""
+    import numpy as np
+    import pyarrow as pa
+    import tea_tasting as tt
+    nprng = np.random.default_rng(chk.seed + 152)
+    n = 60
+    data = pa.table({"variant": [j % 2 for j in range(n)], "orders": nprng.poisson(3, n).astype(float) + 1,
+                     "sessions": nprng.poisson(8, n).astype(float) + 2})
+    kw = dict(n_resamples=30, random_state=5)
+    ms = {"o_per_s": tt.Bootstrap(("orders", "sessions"), ratio_of_means, **kw),
+          "s_per_o": tt.Bootstrap(("sessions", "orders"), ratio_of_means, **kw)}
+    chk.case(("bootstrap", "same-columns-two-orders"))
+    chk.branch("bootstrap:same-columns-two-orders")
+    try:
+        inside = tt.Experiment(ms).analyze(data)
+        alone = {k: m.analyze(data, 0, 1, "variant") for k, m in ms.items()}
+    except Exception as ex:  # noqa: BLE001
+        chk.fail("Bootstrap analysis raised", dict(case="same columns in two orders", error=repr(ex)))
+        return
+    for k in ms:
+        if any(not eqf(a, b) for a, b in zip(inside[k], alone[k])):
+            chk.fail("the result inside an Experiment next to other metrics differs from the stand-alone result",
+                     dict(metric=k, columns=ms[k].columns, alone=[repr(float(x)) for x in alone[k]],
+                          in_experiment=[repr(float(x)) for x in inside[k]]))
+
+
 def large_sample(chk: Check):
     """a LARGE sample (n_resamples x sample size beyond 2**25 cells): the interval is still what scipy.stats.bootstrap
     gives for the same arrays, settings (batch=None) and seed"""
@@ -383,6 +414,7 @@ def main():
     selection(chk, 60 if q else 600)
     bootstrap_runs(chk, 8 if q else 60, ("pandas", "polars-lazy", "pyarrow", "pyarrow-chunked", "ibis-sqlite"))
     large_sample(chk)
+    same_columns_two_orders(chk)
     chk.cov["rule"] = ("partition: 1..4 variants (int/str/bool ids), <= 34 rows, 1..3 of 4 columns (int and float), 6 input "
                        "kinds; selection: fetched superset in any order, by name, vector vs stack, missing column; bootstrap: "
                        "mean / 2-column ratio of means / median of a 1-tuple / Quantile x alternative x level x method x "
